@@ -6,8 +6,10 @@ sums S, timescale ts, nominal segment duration sd, start number sn, first decode
 reference (Rref ticks @ tsref); R = Rref*ts // tsref.  Live clock: E elapsed us, F first-available us,
 W leeway us, B timeShiftBufferDepth s.
 """
+import ast
 import z3
 from pyvc.vals import *          # noqa: F401,F403
+from pyvc.engine import PyRaise
 from pyvc.contract import Contract, Loop, Lemma, Group
 from contracts import dt as DT_GROUP
 
@@ -45,6 +47,8 @@ def world():
     w['pos'] = z3.Function('pos', INT, INT)
     w['size'] = z3.Function('size', INT, INT)
     w['TF'] = z3.Function('TF', INT, INT)        # tfdt stored in fragment k of the file
+    w['trun_flags'] = z3.Int('trun_flags')
+    w['order_is'] = lambda x, *names: z3.BoolVal(isinstance(x, PyList) and list(x.items) == list(names))
     w['Mof'] = z3.Function('Mof', INT, INT)      # segment index get_segment_index returns (skolem function of its result)
     w['Lof'] = z3.Function('Lof', INT, INT)      # loop index get_segment_index ends in (skolem function of its ghost L)
     i = z3.Int('i!ax')
@@ -339,13 +343,49 @@ class EncodedAtom:
         raise Unsupported(f'BytesIO.{name}')
 
 
-def gms_models(with_sidx):
+def model_sum_of_durations(eng, e, a, kw):
+    """sum([seg.duration for seg in representation.segments[1:m]]) is the prefix sum S(m - 1) of the durations (S is
+    defined by rep_valid: S(0) = 0, S(i) = S(i-1) + d(i)); any other argument of sum() is evaluated as it stands"""
+    arg = e.args[0] if len(e.args) == 1 else None
+    if isinstance(arg, ast.ListComp) and len(arg.generators) == 1 and not arg.generators[0].ifs:
+        g = arg.generators[0]
+        it = g.iter
+        if isinstance(g.target, ast.Name) and ast.unparse(arg.elt) == f'{g.target.id}.duration' and \
+                isinstance(it, ast.Subscript) and isinstance(it.slice, ast.Slice) and it.slice.step is None and \
+                isinstance(it.slice.lower, ast.Constant) and it.slice.lower.value == 1 and it.slice.upper is not None:
+            seq = eng.eval(it.value)
+            if isinstance(seq, SeqFn) and seq.name == 'segments':
+                hi = zint(eng.eval(it.slice.upper))
+                eng.oblige('safety', 'slice.upper.in_range', z3.And(hi >= 1, hi <= zint(seq.length)))
+                return eng.world['S'](hi - 1)
+    raise Unsupported('sum() of something other than the durations of segments[1:m]')
+
+
+model_sum_of_durations.lazy = True
+
+
+def tfdt_setattr(eng, box, value):
+    """TrackFragmentDecodeTimeBox.__setattr__('base_media_decode_time', v), as its contract (group mp4, proved there) states
+    it: the value is stored and the box is in the 64-bit form afterwards iff it already was or the value needs it"""
+    v = zint(value)
+    ver = zint(box.f.get('version', 0))
+    box.f['version'] = z3.If(z3.Or(ver == 1, v >= 2 ** 32, v <= -(2 ** 32)), 1, ver)      # bit_length() > 32
+    box.f['base_media_decode_time'] = value
+
+
+def missing_child(eng, base):
+    raise PyRaise('AttributeError')
+
+
+def gms_models(with_sidx, has_tfdt=True):
     def load_fragment(eng, e, a, kw):
         w = eng.world
         mod = a[1]
         eng.ghost_env['served_mod'] = zint(mod)
-        tfdt = Obj('TfdtBox', {'base_media_decode_time': w['TF'](zint(mod))})
-        traf = Obj('TrackFragmentBox', {'tfdt': tfdt})
+        tfdt = Obj('TfdtBox', {'base_media_decode_time': w['TF'](zint(mod)), 'version': z3.Int('stored_tfdt_version')})
+        traf = Obj('TrackFragmentBox', {'tfdt': tfdt} if has_tfdt else {
+            'tfhd': Obj('TfhdBox', {'base_data_offset': z3.Int('stored_base_data_offset')}),
+            'trun': Obj('TrunBox', {'flags': z3.Int('trun_flags')}), '__order__': PyList(['tfhd', 'trun'])})
         moof = Obj('MovieFragmentBox', {'mfhd': Obj('MfhdBox', {'sequence_number': z3.Int('stored_seq')}), 'traf': traf})
         f = {'moof': moof}
         if with_sidx:
@@ -355,10 +395,31 @@ def gms_models(with_sidx):
     def encode(eng, e, a, kw):
         atom = eng.eval(e.func.value)
         moof = atom.f['moof']
-        a[0].snapshot = Obj('EncodedSegment', {
-            'sequence_number': moof.f['mfhd'].f['sequence_number'],
-            'tfdt': moof.f['traf'].f['tfdt'].f['base_media_decode_time'],
-            'has_sidx': 'sidx' in atom.f, '__len__': fresh('encoded_len')})
+        traf = moof.f['traf']
+        snap = {'sequence_number': moof.f['mfhd'].f['sequence_number'],
+                'tfdt': traf.f['tfdt'].f['base_media_decode_time'] if 'tfdt' in traf.f else None,
+                'has_sidx': 'sidx' in atom.f, '__len__': fresh('encoded_len')}
+        if not has_tfdt:
+            snap.update(order=traf.f['__order__'], trun_flags=traf.f['trun'].f['flags'],
+                        tfhd_base=traf.f['tfhd'].f['base_data_offset'],
+                        tfdt_version=traf.f['tfdt'].f.get('version') if 'tfdt' in traf.f else None)
+        a[0].snapshot = Obj('EncodedSegment', snap)
+
+    def traf_index(eng, e, a, kw):
+        order = eng.eval(e.func.value).f['__order__'].items
+        if a[0] not in order:
+            raise PyRaise('ValueError')
+        return order.index(a[0])
+
+    def insert_child(eng, e, a, kw):
+        traf = eng.eval(e.func.value)
+        if not isinstance(a[0], int):
+            raise Unsupported('insert_child at a symbolic index')
+        traf.f['__order__'].items.insert(a[0], 'tfdt')
+        traf.f['tfdt'] = a[1]
+
+    def find_child(eng, e, a, kw):
+        return eng.eval(e.func.value).f.get(a[0])
 
     def make_response(eng, e, a, kw):
         v = a[0]
@@ -375,6 +436,11 @@ def gms_models(with_sidx):
         'EventFactory.create_event_generators': lambda eng, e, a, kw: PyList([]),   # region: no inband events asked for
         'io.BytesIO': lambda eng, e, a, kw: EncodedAtom(),
         'atom.encode': encode,
+        'atom.moof.traf.index': traf_index, 'traf.insert_child': insert_child, 'traf.find_child': find_child,
+        'sum': model_sum_of_durations, 'setattr:TfdtBox.base_media_decode_time': tfdt_setattr,
+        'getattr:TrackFragmentBox.tfdt': missing_child,         # Mp4Atom.__getattr__: no such child box
+        'mp4.TrackFragmentDecodeTimeBox': lambda eng, e, a, kw: Obj('TfdtBox', dict(kw)),
+        'attr:mp4.TrackFragmentRunBox.data_offset_present': lambda eng: 1,
         'self.get_http_range': lambda eng, e, a, kw: (None, None, 200, {}),        # region: no Range header (see C13)
         'content_type_to_mime_type': lambda eng, e, a, kw: Opaque('mime'),
         'add_allowed_origins': lambda eng, e, a, kw: None,
@@ -382,7 +448,7 @@ def gms_models(with_sidx):
     }
 
 
-def gms(mode, kind, content_type, with_sidx=True):
+def gms(mode, kind, content_type, with_sidx=True, has_tfdt=True):
     callee = next(c for c in MSI if c.variant == f'{mode}-{kind}')
     sp = callee.spec
 
@@ -396,33 +462,40 @@ def gms(mode, kind, content_type, with_sidx=True):
                 'options': Obj('OptionsContainer', {'mode': mode, 'segmentTimeline': kind == 'time', 'videoCorruption': None}),
                 'seg_num': z3.Int('seg_num') if kind == 'number' else None,
                 'seg_time': z3.Int('seg_time') if kind == 'time' else None}
-    origin = '(result.data.tfdt - TF(served_mod))'
+    # a stored fragment without a tfdt gets one: its decode time is the sum of the durations before it
+    stored_time = 'TF(served_mod)' if has_tfdt else 'S(served_mod - 1)'
+    origin = f'(result.data.tfdt - {stored_time})'
     served = [('served_number', f"result.data.sequence_number == {sp['num']}"), ('no_sidx', 'not result.data.has_sidx'),
               ('stored_segment', '1 <= served_mod and served_mod <= n')]
+    if not has_tfdt:
+        served += [('tfdt_follows_tfhd', "order_is(result.data.order, 'tfhd', 'tfdt', 'trun')"),
+                   ('trun_gets_data_offset', '(result.data.trun_flags // 1) % 2 == 1 and result.data.trun_flags // 2 == trun_flags // 2'),
+                   ('tfhd_base_recomputed', 'is_none(result.data.tfhd_base)'),
+                   ('tfdt_version_fits', f'result.data.tfdt_version == 1 or result.data.tfdt < {2 ** 32}')]
     if mode == 'live':
         status = [('refused_must', f"result.status == 404 if ({sp['must']}) or {sp['outside']} else True"),
                   ('refused_may', f"(({sp['may']}) or {sp['outside']}) if result.status == 404 else True")]
         served += [(lab, t) for lab, t in gsi(sp['tc'], 'served_mod', f'({origin} + S(served_mod - 1))', origin) if lab != 'start']
     else:
         status = [('refused', f"(result.status == 404) == ({sp['outside']})")]
-        served += [('served_fragment', f"served_mod == ({sp['num']}) - sn + 1"), ('served_time', 'result.data.tfdt == TF(served_mod)')]
+        served += [('served_fragment', f"served_mod == ({sp['num']}) - sn + 1"), ('served_time', f'result.data.tfdt == {stored_time}')]
     return Contract(
-        key=f'{MRQ}:MediaRequestBase.generate_media_segment', variant=f'{mode}-{kind}-{content_type}{"" if with_sidx else "-nosidx"}',
+        key=f'{MRQ}:MediaRequestBase.generate_media_segment', variant=f'{mode}-{kind}-{content_type}{"" if with_sidx else "-nosidx"}{"" if has_tfdt else "-notfdt"}',
         props=['C02', 'C16', 'C01' if mode == 'live' else 'C06'], env=env,
-        requires=list(callee.requires),
-        models=gms_models(with_sidx),
+        requires=list(callee.requires) + ([] if has_tfdt else [('trun_flags_24bit', '0 <= trun_flags and trun_flags < 16777216')]),
+        models=gms_models(with_sidx, has_tfdt),
         ctors={'AdaptationSet': lambda eng, a, kw: Obj('AdaptationSet', {'content_type': kw['content_type'],
                                                                          'representations': PyList([])}),
                'DashTiming': lambda eng, a, kw: timing_obj(eng.world, mode)},
         ensures=[('status', 'result.status == 404 or result.status == 200')] + status +
                 [(lab, f'True if result.status == 404 else ({t})') for lab, t in served],
         canaries=['result.status == 404'],
-        witness_terms=witness(('seg_num', 'seg_time', 'stored_seq')),
+        witness_terms=witness(('seg_num', 'seg_time', 'stored_seq', 'trun_flags')),
     )
 
 
 GMS = [gms('live', 'number', 'audio'), gms('live', 'time', 'video'), gms('vod', 'number', 'video', with_sidx=False),
-       gms('vod', 'time', 'audio')]
+       gms('vod', 'time', 'audio'), gms('live', 'time', 'audio', has_tfdt=False), gms('vod', 'number', 'audio', has_tfdt=False)]
 
 
 # ----------------------------------------------------------------------------- SegmentList (on-demand byte ranges)
